@@ -148,6 +148,14 @@ func (e *env) alias(k string) string {
 	return k
 }
 
+// target of a gadd / gremove op: a subject (S) or, when K > 0, the policy with key K
+func (e *env) target(o op) ontology.ID {
+	if o.K > 0 {
+		return policy.OntologyID(ukey(o.K))
+	}
+	return o.S.id()
+}
+
 func (e *env) dump(tx gorp.Tx) view {
 	var v view
 	res, rels, err := ontology.VerifScan(e.ctx, e.otg, tx)
@@ -271,6 +279,10 @@ func runCase(c tcase) (res result) {
 			er = otg.NewWriter(tx).DefineResource(ctx, o.S.id())
 		case "delsubject":
 			er = otg.NewWriter(tx).DeleteResource(ctx, o.S.id())
+		case "gadd":
+			er = otg.NewWriter(tx).DefineRelationship(ctx, rol.UsersGroup().OntologyID(), ontology.RelationshipTypeParentOf, e.target(o))
+		case "gremove":
+			er = otg.NewWriter(tx).DeleteRelationship(ctx, rol.UsersGroup().OntologyID(), ontology.RelationshipTypeParentOf, e.target(o))
 		case "begin":
 			if tx == nil {
 				tx = db.OpenTx()
